@@ -104,15 +104,18 @@ func c06AfterCrash(s *sim) (viol, class string) {
 		for _, arr := range arrived {
 			sp := strings.LastIndex(arr, " ")
 			target, md5 := arr[:sp], arr[sp+1:]
-			okName := false
+			okName, okHash := false, false
 			for _, k := range s.order {
 				f := s.files[k]
 				if f.target() == target {
 					okName = true
-					if f.hash() != md5 {
-						return fmt.Sprintf("%s: %q appeared in the final directory with content md5 %s, which is not the announced (validated) content", when, target, md5)
+					if f.hash() == md5 {
+						okHash = true
 					}
 				}
+			}
+			if okName && !okHash {
+				return fmt.Sprintf("%s: %q appeared in the final directory with content md5 %s, which is not the announced (validated) content", when, target, md5)
 			}
 			if !okName {
 				return fmt.Sprintf("%s: a file appeared in the final directory under %q, which is no proper target name", when, target)
@@ -176,16 +179,50 @@ func c06AfterCrash(s *sim) (viol, class string) {
 			}
 		}
 	}
+	// the version of each name the sender is working on: the one announced last (the first one
+	// if none was announced yet)
+	current := map[string]string{}
+	for _, k := range s.order {
+		if _, ok := current[s.files[k].Name]; !ok {
+			current[s.files[k].Name] = k
+		}
+	}
+	for _, x := range s.steps {
+		if f := s.files[x.Act.F]; f != nil && strings.HasPrefix(x.Act.Op, "recv") {
+			current[f.Name] = f.Key
+		}
+	}
+	var keys []string
+	for _, k := range s.order {
+		if current[s.files[k].Name] == k {
+			keys = append(keys, k)
+		}
+	}
 	// ---- an ideal sender resumes: poll; send what the listing does not hold; repeat
 	for round := 0; round < 3; round++ {
 		progress := false
-		for _, k := range s.order {
+		for _, k := range keys {
 			f := s.files[k]
 			if s.countArrivals(f) > 0 {
 				continue
 			}
-			var status int
-			runAsync(func() { status = s.w.st.GetFileStatus(f.Name, s.ftime) })
+			// a sender that has transmitted every part polls; one that was still transmitting
+			// carries on with the parts the receiver does not list (it does not poll by name,
+			// which could be answered for an older version)
+			allSent := true
+			for i := 0; i < len(f.Cuts)-1; i++ {
+				sent := false
+				for _, x := range s.steps[:crash+1] {
+					if strings.HasPrefix(x.Act.Op, "recv") && x.Act.F == k && x.Act.P == i && x.Err == "" && !x.Crashed {
+						sent = true
+					}
+				}
+				allSent = allSent && sent
+			}
+			status := sts.ConfirmNone
+			if allSent || round > 0 {
+				runAsync(func() { status = s.w.st.GetFileStatus(f.Name, s.ftime) })
+			}
 			if status == sts.ConfirmPassed || status == sts.ConfirmWaiting {
 				continue
 			}
@@ -205,12 +242,12 @@ func c06AfterCrash(s *sim) (viol, class string) {
 				return v + "\n" + tr(), ""
 			}
 		}
-		if !progress {
+		if !progress && round > 0 {
 			break
 		}
 	}
 	last := s.steps[len(s.steps)-1]
-	for _, k := range s.order {
+	for _, k := range keys {
 		f := s.files[k]
 		n := s.countArrivals(f)
 		if n > 1 {
@@ -245,8 +282,30 @@ func c06AfterCrash(s *sim) (viol, class string) {
 	}
 	// nothing but properly named files may remain in the final directory
 	for _, e := range vh.List(s.w.finalDir) {
-		if !e.Dir {
+		if !e.Dir && (!s.keep || strings.HasSuffix(e.Path, ".lck")) {
 			return fmt.Sprintf("%s remains in the final directory after recovery and resumption\n%s", e.Path, tr()), "crash-between-move-renames"
+		}
+	}
+	if s.keep {
+		// what sits under each proper name is the version delivered last (per the receive log)
+		for _, e := range vh.List(s.w.finalDir) {
+			if e.Dir {
+				continue
+			}
+			want := ""
+			for _, rec := range last.LogAfter {
+				f := strings.Split(rec, "|")
+				tgt := f[0]
+				if f[1] != "" {
+					tgt = f[1]
+				}
+				if tgt == e.Path {
+					want = f[2]
+				}
+			}
+			if want != "" && want != e.MD5 {
+				return fmt.Sprintf("%s in the final directory has md5 %s, the version logged last is %s (a validated, logged version was not put in place)\n%s", e.Path, e.MD5, want, tr()), ""
+			}
 		}
 	}
 	return "", ""
@@ -288,14 +347,52 @@ func c06Crash(files []*sFile, hist []sAction) (enabled bool, viol, class string,
 	return
 }
 
+// TestC06Versions: the same name delivered a second time with new content while the first
+// delivery still sits in the final directory (no consumer took it away).
+func TestC06Versions(t *testing.T) {
+	files := []*sFile{
+		{Key: "a1", Name: "a", Renamed: "x/a", Data: "AAAABBBB", Cuts: []int64{0, 4, 8}},
+		{Key: "a2", Name: "a", Renamed: "x/a", Data: "aaaabbbbcc", Cuts: []int64{0, 4, 10}},
+	}
+	alphabet := func(hist []sAction) []sAction {
+		var out []sAction
+		a1done := histCount(hist, "recv", "a1", 0) > 0 && histCount(hist, "recv", "a1", 1) > 0
+		for _, f := range files {
+			if f.Key == "a2" && !a1done {
+				continue
+			}
+			for p := 0; p < 2; p++ {
+				if histCount(hist, "recv", f.Key, p) < 1 {
+					out = append(out, sAction{Op: "recv", F: f.Key, P: p})
+				}
+			}
+		}
+		for _, op := range []string{"restart", "adv10s"} {
+			if histCount(hist, op, "", 0) < 1 {
+				out = append(out, sAction{Op: op})
+			}
+		}
+		return out
+	}
+	runC06(t, "receiver crash points, a name delivered again with new content (E-HIST)", files, alphabet, 5, true,
+		"crash-free histories up to length 5 over two versions of one renamed file (2 parts each, the second version after the first was transmitted), orderly restart, clock +11 s; delivered files stay in the final directory; every crash point of every transition, and of the recovery that follows for histories up to length 3")
+}
+
 func TestC06(t *testing.T) {
-	stT = t
 	depth := 5
 	if vh.Thorough() {
 		depth = 7
 	}
 	files := c06Files()
-	rep := vh.NewReport("C06", "receiver crash points (E-HIST)")
+	runC06(t, "receiver crash points (E-HIST)", files, c06Alphabet(files, vh.Thorough()), depth, false,
+		fmt.Sprintf("crash-free histories up to length %d over: file a (renamed to x/a, 2 parts), file b (1 part, predecessor a); parts received up to twice in any order, one corrupted part, one poll, clock +11 s, CleanNow, orderly restart; for every transition the receiver dies before each file-system mutation of the step and at rest after it (k-th mutation enumerated, not sampled), and (quick: histories up to length 3; thorough: all) again before each mutation of the recovery that follows; then real Recover(), Scan, and an ideal resumption", depth))
+}
+
+func runC06(t *testing.T, partName string, files []*sFile, alphabet func([]sAction) []sAction, depth int, keep bool, bound string) {
+	stT = t
+	simKeep = keep
+	defer func() { simKeep = false }()
+	rep := vh.NewReport("C06", partName)
 	defer rep.Write()
 	var rc c06Replay
 	if vh.ReplaySpec(&rc) {
@@ -312,7 +409,7 @@ func TestC06(t *testing.T) {
 	}
 	h := &vh.Hist[sAction]{
 		Rep:        rep,
-		Alphabet:   c06Alphabet(files, vh.Thorough()),
+		Alphabet:   alphabet,
 		Run:        func(hist []sAction) vh.HistResult { return simRun(files, hist, base) },
 		MaxDepth:   depth,
 		ShardDepth: 2,
@@ -356,7 +453,7 @@ func TestC06(t *testing.T) {
 		},
 	}
 	h.Explore()
-	rep.Bound = fmt.Sprintf("crash-free histories up to length %d over: file a (renamed to x/a, 2 parts), file b (1 part, predecessor a); parts received up to twice in any order, one corrupted part, one poll, clock +11 s, CleanNow, orderly restart; for every transition the receiver dies before each file-system mutation of the step and at rest after it (k-th mutation enumerated, not sampled), and (quick: histories up to length 3; thorough: all) again before each mutation of the recovery that follows; then real Recover(), Scan, and an ideal resumption", depth)
+	rep.Bound = bound
 	_ = os.Remove
 	_ = filepath.Join
 }
